@@ -333,7 +333,9 @@ def match_known(sess, evr, kf):
     for f in kf.get("findings", []):
         if f.get("property") != "C18" or f.get("matcher") != "bare_one_sum":
             continue
-        if evr["t"] == "fail" and evr["exc"] == "TypeError":
+        # TypeError from `one + X`; with hermitian=True the mirrored half is formed as
+        # `term + Dagger(term)` and Dagger(one) raises sympy's SympifyError instead
+        if evr["t"] == "fail" and evr["exc"] in ("TypeError", "SympifyError"):
             cell = (evr["s"], evr["i"][0], evr["i"][1], tuple(evr["ord"]))
             if cell in bare_one_sum_cells(sess):
                 return f["what"]
